@@ -445,7 +445,7 @@ fn main() {
     for (cap, h) in &fixed {
         run_case(&mut out, *cap, h);
     }
-    let n = if args.thorough { 50000 } else { 2000 };
+    let n = if args.thorough { 20000 } else { 2000 };
     for c in 0..n {
         let mut r = Rng::for_case(args.seed, c);
         let cap = if r.chance(1, 5) { 1024 } else { r.range(1, 4) as usize };
